@@ -115,7 +115,7 @@ def declared_model(draw):
                     if e2 == e and j in cover and draw(st.booleans()):
                         h.setdefault(str(j), [0.0] * rv[j]['n'])[c] = draw(st.sampled_from([-1.0, 1.0, 2.0]))
                 rows.append({'sense': 'eq', 'set': sk, 'ld': k, 'entry': e, 'dv': i, 'g': _vec(draw, dv[i]['n']), 'h': h,
-                             'c0': float(draw(st.integers(-1, 1)))})
+                             'c0': float(draw(st.integers(-1, 1))), 'defer': [j for j in sorted(h) if draw(st.booleans())]})
                 continue
         a = [[0.0]] + [(_vec(draw, d['n']) if draw(st.booleans()) else [0.0] * d['n']) for d in dv[1:]]
         b = []
@@ -136,8 +136,10 @@ def declared_model(draw):
             i = draw(st.integers(1, ndv))
             j = draw(st.sampled_from(cover))
             bil = {'dv': i, 'rv': j, 'M': [_vec(draw, rv[j]['n'], [-1.0, 0.0, 1.0]) for _ in range(dv[i]['n'])]}
+        # random terms that are added to the stored expression object only when the constraint is written (a random array
+        # may be declared in between)
         rows.append({'sense': sense, 'set': sk, 'a': a, 'b': b, 'c': c, 'bil': bil, 'c0': float(draw(st.integers(-3, 2))),
-                     'spell': draw(st.integers(0, 2))})
+                     'spell': draw(st.integers(0, 2)), 'defer': [j for j in sorted(c) if draw(st.booleans())]})
     return {'dv': dv, 'rv': rv, 'ld': ld, 'sets': sets, 'obj': obj, 'rows': rows}
 
 
@@ -190,6 +192,7 @@ def opseq_case(draw):
             ops.append(['set', s])
     ops.append(['obj'])
     for r in range(nrow):
+        ops.append(['expr', r])
         ops.append(['con', r])
         ops.append(['st', r])
     canonical = [list(o) for o in ops]
@@ -216,12 +219,21 @@ def opseq_case(draw):
                 if ob['F']:
                     need.append(['dvar', ob['F']['dv']])
             return all(has(x) for x in need)
+        if t == 'expr':
+            r = o[1]
+            dvs, rvs, lds = row_uses(model, r)
+            later = {int(j) for j in model['rows'][r].get('defer', [])}
+            bil = model['rows'][r].get('bil')
+            if bil:
+                later.discard(bil['rv'])
+            need = [['dvar', i] for i in dvs] + [['rvar', j] for j in rvs if j not in later] + [['ldr', k] for k in lds]
+            for k in lds:
+                need += adapt_calls(model, k)
+            return all(has(x) for x in need)
         if t == 'con':
             r = o[1]
             dvs, rvs, lds = row_uses(model, r)
-            need = [['dvar', i] for i in dvs] + [['rvar', j] for j in rvs] + [['ldr', k] for k in lds]
-            for k in lds:
-                need += adapt_calls(model, k)
+            need = [['expr', r]] + [['rvar', j] for j in rvs]
             sk = model['rows'][r]['set']
             if sk is not None:
                 need += [['rvar', p['rv']] for p in model['sets'][sk]['pieces']]
@@ -282,6 +294,7 @@ class Live:
         self.sted = []
         self.has_obj = False
         self.adapted = set()
+        self.exprs = {}
 
     def set_objects(self, s):
         import rsome as rso
@@ -305,11 +318,23 @@ class Live:
             return self.setobjs[s]
         return self.set_objects(s)
 
-    def row_expr(self, row):
+    def row_expr(self, row, part):
+        """part 0: the stored expression object; part 1: the terms added when the constraint is written"""
+        defer = set(row.get('defer', []))
         if row['sense'] == 'eq':
-            e = self.ld[row['ld']][row['entry']] - np.array(row['g']) @ self.dv[row['dv']] - row['c0']
+            if part == 0:
+                e = self.ld[row['ld']][row['entry']] - np.array(row['g']) @ self.dv[row['dv']] - row['c0']
+            else:
+                e = self.exprs[id(row)]
             for j, h in row['h'].items():
-                e = e - np.array(h) @ self.rv[int(j)]
+                if (j in defer) == (part == 1):
+                    e = e - np.array(h) @ self.rv[int(j)]
+            return e
+        if part == 1:
+            e = self.exprs[id(row)]
+            for j, c in row['c'].items():
+                if any(c) and j in defer:
+                    e = e + np.array(c) @ self.rv[int(j)]
             return e
         e = None
         for i, a in enumerate(row['a']):
@@ -321,7 +346,7 @@ class Live:
                 term = np.array(b) @ self.ld[k] if row['spell'] != 1 else (np.array(b) * self.ld[k]).sum()
                 e = term if e is None else e + term
         for j, c in row['c'].items():
-            if any(c):
+            if any(c) and j not in defer:
                 term = np.array(c) @ self.rv[int(j)]
                 e = term if e is None else e + term
         if row['bil']:
@@ -380,9 +405,12 @@ class Live:
             else:
                 m.maxmin(e, self.get_set(0))
             self.has_obj = True
+        elif t == 'expr':
+            row = model['rows'][o[1]]
+            self.exprs[id(row)] = self.row_expr(row, 0)
         elif t == 'con':
             row = model['rows'][o[1]]
-            e = self.row_expr(row)
+            e = self.row_expr(row, 1)
             c = (e == 0) if row['sense'] == 'eq' else (e <= 0) if row['sense'] == 'le' else (-e >= 0)
             if row['set'] is not None and hasattr(c, 'forall'):     # rows without random terms are plain constraints
                 c = c.forall(self.get_set(row['set']))
